@@ -36,6 +36,7 @@ BIG = [
     ["big", "create", False], ["big", "create", True], ["big", "create+append", False], ["big", "create+append", True],
     ["big", "create+append+append", True], ["big", "create+shrink+append", True], ["big", "text+append", False],
     ["big", "frame+append_rows", False],
+    ["big", "many-appends", False], ["big", "many-appends", True], ["big", "frame-many-appends", False], ["big", "property-many-values", False],
 ]
 
 
@@ -90,6 +91,23 @@ def big_op(f, op):
     kind, compressed = op[1], op[2]
     b = f.blocks[0] if len(f.blocks) else f.create_block("bigblock", "t")
     comp = nix.Compression.DeflateNormal if compressed else nix.Compression.No
+    if kind == "many-appends":
+        # two dozen appends in a row without any read in between; the array grows past 1024 rows on the way
+        da = b.create_data_array("grown", "t", data=np.arange(20.0).reshape(10, 2), compression=comp)
+        for i in range(24):
+            da.append(np.full((55, 2), float(i)), axis=0)
+        return
+    if kind == "frame-many-appends":
+        df = b.create_data_frame("grownframe", "t", col_dict=dict([("a", np.int64), ("s", str)]), data=[(0, "r")])
+        for i in range(24):
+            df.append_rows([(i * 100 + j, "x%d" % j) for j in range(50)])
+        return
+    if kind == "property-many-values":
+        sec = f.sections[0] if len(f.sections) else f.create_section("bigsec", "t")
+        p_ = sec.create_property("grownprop", [0])
+        for i in range(24):
+            p_.extend_values(list(range(i * 50, i * 50 + 50)))
+        return
     steps = kind.split("+")
     da = None
     for st in steps:
